@@ -84,10 +84,17 @@ func H_C14_records_replay_as_written_or_cut() {
 func H_C14_decoder_arbitrary_bytes() {
 	n := verifCase(13)
 	b := verifNondetBytes(n)
-	if n >= 8 {
-		// the length field: small, or above the limit (must be refused before allocating); lengths in
-		// between would need a symbolic-length buffer and are outside this check
-		l := uint32(b[4])<<24 | uint32(b[5])<<16 | uint32(b[6])<<8 | uint32(b[7])
+	if n > 4 {
+		// the length field as the decoder will read it (a short read leaves the missing bytes zero):
+		// small, or above the limit (must be refused before allocating); lengths in between would need
+		// a symbolic-length buffer and are outside this check
+		var lb [4]byte
+		end := n
+		if end > 8 {
+			end = 8
+		}
+		copy(lb[:], b[4:end])
+		l := uint32(lb[0])<<24 | uint32(lb[1])<<16 | uint32(lb[2])<<8 | uint32(lb[3])
 		verifAssume(l <= 16 || l > maxMsgSizeBytes)
 	}
 	verifAllocLimit(maxMsgSizeBytes)
